@@ -155,7 +155,10 @@ def is_balanced_html(text: str) -> bool:
 
 def wrap_html_tags(text: str, before: str, after: str):
     """Wrap any html tags in text with before and after strings."""
-    return re.sub(r"(<[^>]+>)", rf"{before}\1{after}", text)
+    # before and after are plain strings, not replacement templates
+    return re.sub(
+        r"(<[^>]+>)", lambda match: before + match.group(1) + after, text
+    )
 
 
 def hyperscan_match(regexes, text):
